@@ -205,10 +205,29 @@ def lookup_cases(run, sc, n):
     for _ in range(4):
         a, b = rng.sample(keys, 2)
         g["nodes"][b]["browse"] = g["nodes"][a]["browse"]
+    # always: a name borne by nodes of two classes one of which is a prefix-extension of the other (Object / ObjectType,
+    # Variable / VariableType), and a name borne by the longer-named class only
+    by_cls = {}
+    for k_ in keys:
+        by_cls.setdefault(g["nodes"][k_]["cls"], []).append(k_)
+    for short, long_ in (("UAObject", "UAObjectType"), ("UAVariable", "UAVariableType")):
+        if by_cls.get(short) and by_cls.get(long_):
+            g["nodes"][by_cls[long_][0]]["browse"] = g["nodes"][by_cls[short][0]]["browse"]
     same_cls = [(a, b) for a in keys for b in keys if a < b and g["nodes"][a]["cls"] == g["nodes"][b]["cls"]]
     for a, b in rng.sample(same_cls, min(2, len(same_cls))):
         g["nodes"][b]["browse"] = g["nodes"][a]["browse"]
     files = D.serialise(rng, g)
+    if LOOKUP_CALLS[0] % 2 == 1:
+        # ... and one node of the document that is read first is defined a second time in front of all others, so that
+        # every later row of the table is shifted against its id
+        first = sorted(files)[0]
+        import lxml.etree as ET
+        import copy
+        root = ET.fromstring(files[first].encode("utf-8"))
+        els = [e for e in root if isinstance(e.tag, str) and e.tag[e.tag.index("}") + 1:] in D.CLASSES]
+        if els:
+            root.insert(root.index(els[0]), copy.deepcopy(els[-1]))
+            files[first] = ET.tostring(root, encoding="unicode")
     G, _ = W.build_graph(sc, "lk", files)
     rows = [{"id": int(r["id"]), "cls": r["NodeClass"], "browse": r["BrowseName"]} for _, r in G.nodes.iterrows()]
     names = sorted({r["browse"] for r in rows})
@@ -218,7 +237,13 @@ def lookup_cases(run, sc, n):
     for _ in range(n):
         name = rng.choice(names + ["NoSuchName", "", "Speed", "Pump"])
         cls = rng.choice([None, "Object", "Variable", "ObjectType", "DataType", "ReferenceType", "VariableType", "Method", "View"])
-        if rng.random() < 0.6:          # a present name, with the class of one of its bearers (or none)
+        if len(plan) < len(rows):
+            # every node once: by its own name and class (present), and by its name under a class whose name contains its own class name
+            r0 = rows[len(plan)]
+            name, cls = r0["browse"], r0["cls"][2:]
+            if len(plan) % 2 == 1 and cls.endswith("Type") and cls[:-4] in ("Object", "Variable"):
+                cls = cls[:-4]
+        elif rng.random() < 0.6:          # a present name, with the class of one of its bearers (or none)
             r0 = rng.choice(rows)
             dup = [r for r in rows if sum(1 for q in rows if q["browse"] == r["browse"]) > 1]
             if dup and rng.random() < 0.5:
